@@ -128,6 +128,7 @@ func c10Run(c *Ctx) {
 	if c.Thorough() {
 		layers = append(layers, sweepLayer{"L2", GenOpts{OneGate: true, LeafSet: 2}, 2, nil})
 	}
+	layers = append(layers, sweepLayer{"scale", GenOpts{Scale: true, ScaleThorough: c.Thorough()}, 0, nil})
 	dict := map[string]string{} // plaintext -> ciphertext text under harnessKey, over everything this worker sees
 	badKeys := [][]byte{{}, {1}, make([]byte, 16), make([]byte, 32), make([]byte, 63), make([]byte, 65), make([]byte, 128)}
 	sweep(c, layers, func(sc *sweepCase) bool {
